@@ -41,7 +41,16 @@ class CallbackError(Exception):
 
 
 class TriggerFailed(Exception):
-    pass
+    """raised by the failing trigger double; an exception object may be falsy (`__len__` of a collection-like error
+    class, `__bool__`): error handling must test `is not None`, never truthiness"""
+    def __bool__(self) -> bool:
+        return not (self.args and self.args[0] == 'falsy')
+
+
+# application code often raises a pre-built exception object (`raise NOT_READY`), and several jobs may await the same
+# failed future: every failure has to reach the handler, also when the exception *object* is one it has seen before
+SHARED_CALLABLE_ERROR = CallableError()
+SHARED_CALLBACK_ERROR = CallbackError()
 
 
 def _failing_producer_cls():
@@ -65,7 +74,7 @@ def _failing_producer_cls():
             n = self._n
             self._n += 1
             if n in self._fail or (self._from is not None and n >= self._from):
-                raise TriggerFailed()
+                raise TriggerFailed('falsy' if n % 2 == 0 else 'plain')
             return self._inner.get_next(dt)
 
     return FailingProducer
@@ -90,7 +99,7 @@ class CbObj:
         impl.out.append(f'cb {self.kind} {self.cbid} {h} {job.status.value} '
                         f'{"-" if nr is None else ns_of_instant(nr) - impl.base} {impl.loop.now_ns - impl.base}')
         if self.cbid in impl.cb_fail:
-            raise CallbackError()
+            raise (SHARED_CALLBACK_ERROR.with_traceback(None) if self.cbid % 2 == 0 else CallbackError())
 
 
 def parse_csv(s: str) -> list[int]:
@@ -140,8 +149,17 @@ class SchedImpl:
                                   f'(the clock did not move in between)')
             else:
                 impl.same_instant = [key, 1]
+            sp = impl.spawn.get(h)
+            if sp is not None and sp[0] == n:
+                # re-entrant use of the API: the (synchronous) callable of a job creates another job while the scheduler
+                # is in the middle of a wake-up
+                _, h2, t2 = sp
+                c2 = impl.b_plain.once(instant_of_ns(t2 + impl.base), impl._mk_callable(h2, []))
+                impl.controls[h2] = c2
+                impl.handle_of[id(c2._job)] = h2
+                impl.out.append(f'spawned {h2} {t2}')
             if n in exec_fail:
-                raise CallableError()
+                raise (SHARED_CALLABLE_ERROR.with_traceback(None) if h % 2 == 0 else CallableError())
 
         if self.executor == 'sync':
             return body
@@ -163,6 +181,20 @@ class SchedImpl:
 
     def _handler(self, e: Exception) -> None:
         self.out.append(f'exc {type(e).__name__}')
+
+    def _reconfigure_handler(self) -> None:
+        """the application configures the exception handler again (another function object): from now on every failure
+        goes to the new one, also failures of jobs that were created before"""
+        from eascheduler.errors import handler as eh
+        self.handler_gen = getattr(self, 'handler_gen', 0) + 1
+        gen = self.handler_gen
+
+        def handler(e: Exception, gen=gen) -> None:
+            if gen != self.handler_gen:
+                self.out.append(f'exc STALE-HANDLER-{type(e).__name__}')
+            else:
+                self._handler(e)
+        eh.set_exception_handler(handler)
 
     def _nr(self, c) -> str:
         d = c.next_run_datetime
@@ -217,6 +249,8 @@ class SchedImpl:
             ex = SyncExecutor if self.executor == 'sync' else AsyncExecutor
             b_store = JobBuilder(sched, ex, self.store)
             b_plain = JobBuilder(sched, ex)
+            self.b_plain = b_plain
+            self.spawn = {}
             cbs: dict[tuple[str, int], CbObj] = {}
             blocks = []
             for li, line in enumerate(lines):
@@ -265,6 +299,8 @@ class SchedImpl:
                         self.handle_of[id(c._job)] = h
                         if key is not None and key >= 1000:
                             self.auto_key[c.id] = key
+                        if (h + self.seed) % 2 == 0:
+                            self._reconfigure_handler()
                     elif op in ('cancel', 'pause', 'resume', 'stop', 'reset'):
                         c = self.controls.get(int(tok[2]))
                         if c is None:
@@ -291,6 +327,9 @@ class SchedImpl:
                         # `obj.call` is a new bound-method object on every access (equal, not identical),
                         # exactly what application code passes when it writes `self.method` twice
                         (reg.register if op == 'cbreg' else reg.remove)(obj.call)
+                    elif op == 'spawn':
+                        # `spawn h k h2 t2`: the k-th execution of job h creates the one-shot job h2 for the instant t2
+                        self.spawn[int(tok[2])] = (int(tok[3]), int(tok[4]), int(tok[5]))
                     elif op == 'cbfails':
                         self.cb_fail.add(int(tok[2]))
                     elif op == 'enable':
